@@ -134,6 +134,9 @@ func newSpan(min *Version, minOpen bool, max *Version, maxOpen bool) (span, erro
 	min.build = ""
 	max.build = ""
 	switch {
+	case min.equal(max) && (minOpen || maxOpen):
+		// A single point that one of the ends excludes: nothing is left.
+		return span{rank: empty}, nil
 	case min.equal(max):
 		return span{
 			minOpen: minOpen,
